@@ -36,6 +36,11 @@ def plan(tier, seed):
   for r in ([1, 2] if tier == "quick" else [1, 2, 3]):
     tasks.append({"name": "apply/r%d" % r, "kind": "apply", "r": r,
                   "tier": tier, "profile": {"x64": True}, "part": "apply"})
+  # through the public optimizer: parameters with an axis exactly at, just
+  # above and just below the admissibility boundary d = |r| + 2
+  for r in (1, -1, 2, -2):
+    tasks.append({"name": "public/r%d" % r, "kind": "public", "r": r,
+                  "profile": {"x64": True}, "part": "public"})
   return {
       "tasks": tasks,
       "rule": "every (d, r) with |r|+2 < d <= %d, |r| <= %d, both signs, "
@@ -301,9 +306,109 @@ def run_apply(acc, r, tier):
         acc.sample(dict(case, rel_err=float(err)))
 
 
+def run_public(acc, r):
+  """distributed_shampoo(compression_rank=r) on matrices with an axis at the
+  boundary: an axis with |r|+2 >= d keeps a dense preconditioner, which must
+  be the exact inverse root of the stored statistic; an axis with |r|+2 < d
+  stores the [d, |r|+2] packed root, which must denote the exact root with
+  the complement averaged (when the spectrum has a gap at the cut)."""
+  from mc import ds as dsr
+  from precondition import distributed_shampoo as ds
+  k = abs(r)
+  b = k + 2
+  for sh in [(8, b), (b, 8), (b + 1, 8), (8, b - 1), (b, b + 3)]:
+    cfg = {"compression_rank": r, "block_size": 16, "beta1": 0.0,
+           "beta2": 1.0, "graft_type": 1, "nesterov": False,
+           "best_effort_shape_interpretation": False,
+           "start_preconditioning_step": 1}
+    shapes = {"w": list(sh)}
+    case0 = {"shape": list(sh), "r": r}
+    sig0 = "C10|public|%s|r%d" % (sh, r)
+    try:
+      runner = dsr.Runner(cfg, shapes, "rep")
+      st = runner.init()
+      alpha = dsr.grad_trees(shapes, ["gA", "gB", "gSeed"], (0,), 0)
+      for ev in ("gA", "gB", "gSeed"):
+        _, st = runner.step(st, alpha[ev])
+    except Exception as e:  # pylint: disable=broad-except
+      acc.states += 1
+      if "too small for compression_rank" in str(e):
+        acc.outcome("rejected_explicitly")
+        continue
+      acc.violation(sig0, "optimizer raised %s: %s" %
+                    (type(e).__name__, str(e)[:200]), case0)
+      continue
+    ls = runner.leaf_stats(st, "w")
+    for ax, (stat, pre) in enumerate(zip(ls["statistics"],
+                                         ls["preconditioners"])):
+      acc.states += 1
+      acc.nontrivial += 1
+      acc.transitions += 1
+      d = sh[ax]
+      stat = np.asarray(stat, np.float64)
+      pre = np.asarray(pre, np.float64)
+      case = dict(case0, axis=ax, d=d)
+      sig = "%s|ax%d" % (sig0, ax)
+      w0, u = np.linalg.eigh((stat + stat.T) / 2)
+      ridge = 1e-6 * max(w0[-1], 1e-6)
+      rootv = (np.maximum(w0, 0) + ridge) ** (-1.0 / 4)
+      if not k + 2 < d:
+        want = (u * rootv) @ u.T
+        if pre.shape != (d, d):
+          acc.outcome("viol_public_shape")
+          acc.violation(sig, "axis of size %d is not admissible for rank %d "
+                        "but its preconditioner has shape %s" %
+                        (d, r, pre.shape), case)
+          continue
+        err = np.max(np.abs(pre - want)) / np.max(np.abs(want))
+        if not err <= 2e-3:
+          acc.outcome("viol_public_dense")
+          acc.violation(sig, "axis of size %d (not admissible for rank %d): "
+                        "stored preconditioner differs from the exact "
+                        "inverse root of the stored statistic: rel err %.3g"
+                        % (d, r, err), case)
+        else:
+          acc.outcome("public_dense_ok")
+        continue
+      if pre.shape != (d, k + 2):
+        acc.outcome("viol_public_shape")
+        acc.violation(sig, "admissible axis of size %d: packed preconditioner "
+                      "has shape %s, not [%d, %d]" % (d, pre.shape, d, k + 2),
+                      case)
+        continue
+      keep = np.zeros(d, bool)
+      if r > 0:
+        keep[-k:] = True
+        gap = (w0[-k] - w0[-k - 1]) / max(w0[-1], 1e-300)
+      else:
+        keep[:k] = True
+        gap = (w0[k] - w0[k - 1]) / max(w0[-1], 1e-300)
+      if gap < 1e-3:
+        acc.outcome("public_no_gap_skipped")
+        continue
+      import jax.numpy as jnp
+      vecs, ie, c, z = ds._low_rank_unpack(jnp.asarray(pre), r)
+      vecs, ie, c = np.asarray(vecs), np.asarray(ie), float(c)
+      dense = c * (np.eye(d) - vecs @ vecs.T) + (vecs * ie) @ vecs.T
+      vals = np.where(keep, rootv, rootv[~keep].mean())
+      want = (u * vals) @ u.T
+      err = np.max(np.abs(dense - want)) / np.max(np.abs(want))
+      if not err <= 5e-3 or bool(z):
+        acc.outcome("viol_public_packed")
+        acc.violation(sig, "admissible axis of size %d: the stored packed "
+                      "root does not denote the exact root with averaged "
+                      "complement: rel err %.3g (has_zeros=%s)" %
+                      (d, err, bool(z)), case)
+      else:
+        acc.outcome("public_packed_ok")
+      acc.sample(dict(case, rel_err=float(err)))
+
+
 def run_task(task):
   acc = Acc(task["name"])
-  if task["kind"] == "pack":
+  if task["kind"] == "public":
+    run_public(acc, task["r"])
+  elif task["kind"] == "pack":
     run_pack(acc, task["d"], task["r"])
   elif task["kind"] == "root":
     run_root(acc, task["d"], task["r"], task["seed"])
